@@ -28,6 +28,8 @@ func TestMain(m *testing.M) { prog.Main(m) }
 
 var contractAddr = ethcommon.HexToAddress("0x00000000000000000000000000000000000000c1")
 
+// VERIF_C13_DEBUG=1 prints cases slower than 1 s (2: plus goroutine stacks of stuck cases) to stderr.
+//
 // Stop-condition time-outs. They never produce a verdict: an expired wait only desynchronises the
 // script from the client (the oracle holds for every interleaving) or ends the case as Discard.
 const (
@@ -587,7 +589,7 @@ func gen(t *rapid.T) Prog {
 	head, cursor, tries, progress := p.Head0, p.Start, 0, false
 	pendingFailSub := 0
 	delivered := false // the model has delivered something: keep most of the budget for faults after that
-	fault := func() { // account one failure
+	fault := func() {  // account one failure
 		if progress {
 			tries = 0
 		} else {
@@ -734,8 +736,9 @@ collect:
 				break collect
 			}
 			entries = append(entries, stamped{bl: bl})
-		case <-timeout:
+		case <-timeout: // e.g. the go-ethereum client race described in run(): FilterLogs never returns
 			res.Discard = true
+			prog.Count("TestPropFetchHistorical", "discard:timeout", 1)
 			return res
 		}
 	}
@@ -744,30 +747,27 @@ collect:
 	case ferr = <-errCh:
 	case <-time.After(teardownWait):
 		res.Discard = true
+		prog.Count("TestPropFetchHistorical", "discard:timeout", 1)
 		return res
 	}
 	st := srv.Snapshot()
-	if !due {
-		return failf("fetch-without-due", "FetchHistoricalLogs started a fetch although head-follow < from")
-	}
 	var through *uint64
-	if ferr == nil {
+	if ferr == nil && due {
 		t := p.Head - p.Follow
 		through = &t
 	}
 	if v := judge(chain, p.From, entries, through); v != nil {
 		return failf(v.sig, "%s (fetch error: %v)\n  delivered:\n%s", v.msg, ferr, renderEntries(entries))
 	}
+	// not covered by the statement, only counted: entries outside [from, head-follow], error reporting
 	for _, e := range entries {
-		if e.bl.BlockNumber < p.From || e.bl.BlockNumber > p.Head-p.Follow {
-			return failf("out-of-range", "entry for block %d outside the requested range [%d, %d]", e.bl.BlockNumber, p.From, p.Head-p.Follow)
+		if !due || e.bl.BlockNumber < p.From || e.bl.BlockNumber > p.Head-p.Follow {
+			res.Classes = append(res.Classes, "entry-out-of-range")
+			break
 		}
 	}
-	if ferr == nil && st.FaultsFired > 0 {
-		return failf("error-swallowed", "an eth_getLogs call failed but neither the error channel reported it nor ... (entries %d)", len(entries))
-	}
-	if ferr != nil && st.FaultsFired == 0 {
-		return failf("spurious-error", "error %v without an injected fault", ferr)
+	if (ferr == nil) != (st.FaultsFired == 0) {
+		res.Classes = append(res.Classes, "error-channel-mismatch")
 	}
 	logBlocks := 0
 	for _, e := range entries {
@@ -776,10 +776,11 @@ collect:
 		}
 	}
 	res.NonTrivial = len(st.GetLogs) >= 2 && logBlocks >= 2
-	res.Classes = []string{fmt.Sprintf("batches=%d", min(len(st.GetLogs), 6))}
+	res.Classes = append(res.Classes, fmt.Sprintf("batches=%d", min(len(st.GetLogs), 6)))
 	if st.FaultsFired > 0 {
 		res.Classes = append(res.Classes, "fault:"+p.GetFault)
 	}
+	sort.Strings(res.Classes)
 	return res
 }
 
@@ -787,14 +788,18 @@ func genHist(t *rapid.T) HistProg {
 	p := HistProg{
 		From:   rapid.Uint64Range(0, 12).Draw(t, "from"),
 		Follow: rapid.Uint64Range(0, 8).Draw(t, "follow"),
-		Batch:  rapid.SampledFrom([]uint64{1, 2, 3, 4, 5, 8, 13, 20}).Draw(t, "batch"),
+		Batch:  rapid.SampledFrom([]uint64{1, 1, 2, 2, 3, 3, 4, 5, 8, 13, 20}).Draw(t, "batch"),
 	}
-	nblocks := rapid.IntRange(4, 48).Draw(t, "nblocks")
+	nblocks := rapid.IntRange(12, 48).Draw(t, "nblocks")
 	p.Blocks = make([][]fakeeth.LogSpec, nblocks)
 	for i := 1; i < nblocks; i++ {
 		p.Blocks[i] = genBlock(t)
 	}
-	p.Head = rapid.Uint64Range(0, uint64(nblocks)+p.Follow+2).Draw(t, "head")
+	if rapid.IntRange(0, 6).Draw(t, "short") == 0 {
+		p.Head = rapid.Uint64Range(0, p.From+p.Follow).Draw(t, "head") // mostly nothing to sync
+	} else {
+		p.Head = p.From + p.Follow + rapid.Uint64Range(0, uint64(nblocks)).Draw(t, "head")
+	}
 	if rapid.IntRange(0, 2).Draw(t, "faulty") == 0 && p.Head >= p.Follow && p.Head-p.Follow >= p.From {
 		batches := int((p.Head-p.Follow-p.From)/p.Batch) + 1
 		p.GetFault = rapid.SampledFrom([]string{"fail", "kill"}).Draw(t, "getfault")
